@@ -83,3 +83,16 @@ Proof.
     destruct (add_all_missing V answers _ Hd Hm (fun Hv => proj2 (Hl Hv))) as (d' & E & [Hd1 _] & Hmiss).
     rewrite E. f_equal. apply Hd1. apply Hmiss. right; exact Hex.
 Qed.
+
+(* the fallback does not depend on the delivery order either *)
+Lemma check_all_secondaries_f_spec mc0 answers :
+  ((exists mcs, In (RLocked mcs, true) answers) -> check_all_secondaries_f mc0 answers = CasFallback) /\
+  ((forall mcs, ~ In (RLocked mcs, true) answers) ->
+   check_all_secondaries_f mc0 answers = match check_all_secondaries mc0 (map fst answers) with Some c => CasDecided c | None => CasError end).
+Proof.
+  unfold check_all_secondaries_f. split.
+  - intros [mcs H]. replace (existsb _ answers) with true; [reflexivity|]. symmetry. apply existsb_exists. exists (RLocked mcs, true). split; [exact H|reflexivity].
+  - intros H. replace (existsb (fun a => match a with (RLocked _, true) => true | _ => false end) answers) with false; [reflexivity|].
+    symmetry. apply Bool.not_true_iff_false. intros E. apply existsb_exists in E as ([a b] & Hin & Hx).
+    destruct a as [mcs|c]; [|discriminate]. destruct b; [|discriminate]. exact (H mcs Hin).
+Qed.
